@@ -50,10 +50,19 @@ package reorgdetector
 //@   ensures[a-failed-removal-is-reported] rdFaults == old(rdFaults) + ite(result != nil, 1, 0)
 //@   assert call:Exec arg0 == rd.db && unbox(arg2[2], string) == id
 
-//@ func (rd *ReorgDetector) insertReorgEvent (rd, event)
-//@   trusted
+//@ extern github.com/russross/meddler.Insert@reorgdetector.(*ReorgDetector).insertReorgEvent (conn, table, src)
 //@   modifies rdFaults
 //@   ensures rdFaults == old(rdFaults) + ite(result != nil, 1, 0)
+//@ extern github.com/agglayer/aggkit.GetVersion ()
+//@   modifies nothing
+//@ extern (github.com/agglayer/aggkit.FullVersion).Brief (f)
+//@   modifies nothing
+//@ func (rd *ReorgDetector) insertReorgEvent (rd, event)
+//@   props C06
+//@   requires rd != nil
+//@   modifies rdFaults
+//@   ensures[a-failed-insert-is-reported] rdFaults == old(rdFaults) + ite(result != nil, 1, 0)
+//@   assert call:Insert arg0 == rd.db && arg1 == "reorg_event"
 
 //@ func (hl *headersList) getSorted (hl)
 //@   trusted
